@@ -7,7 +7,7 @@ WORK = os.path.join(VERIF, "work")
 SPEC = os.path.join(VERIF, "spec")
 HARNESS = os.path.join(VERIF, "harness")
 PFV = os.path.join(HARNESS, "target", "release", "pfv")
-EVIDENCE = os.path.join(VERIF, "evidence")
+EVIDENCE = os.environ.get("VERIF_EVIDENCE_DIR") or os.path.join(VERIF, "evidence")
 CORES = max(2, min(16, os.cpu_count() or 4))
 
 class ToolError(Exception):
